@@ -82,6 +82,10 @@ def rand_in(rng, ranges):
     return out
 
 
+# memory layouts of the integer ID arrays handed to the unwrap functions (same values in all three)
+LAYOUTS = ('native', 'bigendian', 'strided')
+
+
 def gen_calls(ctx):
     rng = ctx.rng
     calls = []   # (tag, call)
@@ -198,14 +202,21 @@ def gen_calls(ctx):
         calls.append((tag, {'f': 'spec', 'args': args}))
 
     # unwrap: ids from in-range tuples and arbitrary 63/64-bit words
-    obj_ids = [rng.getrandbits(63) for _ in range(ctx.n(150, 3000))] + [0, 2 ** 63 - 1, 1, 2 ** 59, 2 ** 48 - 1]
-    spec_ids = [rng.getrandbits(64) for _ in range(ctx.n(150, 3000))] + [0, 2 ** 64 - 1, 2 ** 63, 2 ** 50 - 1]
+    obj_ids = [rng.getrandbits(63) for _ in range(ctx.n(300, 3000))] + [0, 2 ** 63 - 1, 1, 2 ** 59, 2 ** 48 - 1]
+    spec_ids = [rng.getrandbits(64) for _ in range(ctx.n(450, 3000))] + [0, 2 ** 64 - 1, 2 ** 63, 2 ** 50 - 1]
+    nint = 0
     for chunk in range(0, len(obj_ids), 50):
         ids = obj_ids[chunk:chunk + 50]
-        calls.append(('unobj', {'f': 'unobj', 'ids': ids, 'as_str': (chunk // 50) % 2 == 1}))
+        as_str = (chunk // 50) % 2 == 1
+        calls.append(('unobj', {'f': 'unobj', 'ids': ids, 'as_str': as_str, 'layout': LAYOUTS[nint % 3]}))
+        nint += 0 if as_str else 1
+    nint = 0
     for chunk in range(0, len(spec_ids), 50):
         ids = spec_ids[chunk:chunk + 50]
-        calls.append(('unspec', {'f': 'unspec', 'ids': ids, 'as_str': (chunk // 50) % 3 == 1, 'index': (chunk // 50) % 3 == 2}))
+        as_str = (chunk // 50) % 3 == 1
+        calls.append(('unspec', {'f': 'unspec', 'ids': ids, 'as_str': as_str, 'index': (chunk // 50) % 3 == 2,
+                                 'layout': LAYOUTS[nint % 3]}))
+        nint += 0 if as_str else 1
 
     # exhaustive per-field sweeps with the other fields at their extremes
     for i, (lo, hi) in enumerate(OBJ_RANGES):
